@@ -141,7 +141,10 @@ def gen_multi(rng):
                 elif r < 0.8 and reqs:
                     ops.append(("qry", 0, rng.choice(["in", ("ip", 1)])))
                 elif r < 0.9:
-                    ops.append(("sch", ("r", rng.choice(DELAYS)), rng.randrange(3), ("ip", 10), None,
+                    # handlers only schedule onto input 2, which never schedules: no event storm (a handler
+                    # that schedules two events onto an input that schedules again doubles the population at
+                    # every step and exhausts the model's fuel before the implementation finishes)
+                    ops.append(("sch", ("r", rng.choice(DELAYS)), 2, ("ip", 10), None,
                                 rng.choice([None, None, 5])))
             hs.append(ops)
         # leaf-ish input 2 to keep event storms finite
